@@ -28,10 +28,29 @@
   runtime_eq_spec_partial
   inline_eq_spec_partial
   spec_restart_witness
+  inline_eq_runtime_illformed_partial
+  inline_seq_illformed_partial
+  failed_prepare_keeps_cache_sound
+  inline_real_seq_eq_runtime_partial
+  seq_same_termination
+  runtime_eq_spec_zones_partial
+  inline_eq_spec_zones_partial
+  spec_leaf_dyn_witness
+  inline_real_eq_runtime_illformed_partial
+  inline_real_seq_illformed_partial
+  seq_more_fuel_same_answers_and_loader
+  failed_request_more_fuel_further_loads
+  loaded_set_grows_with_fuel
+  loaded_set_eventually_constant
 -/
 import Genshi.Lemmas.InclErase
 import Genshi.Lemmas.InclSpec
 import Genshi.Lemmas.InclGuard
+import Genshi.Lemmas.InclIllSim
+import Genshi.Lemmas.InclSeq
+import Genshi.Lemmas.InclSpecZ
+import Genshi.Lemmas.InclLogPre
+import Genshi.Lemmas.InclFin
 import Genshi.Gen.Incl
 namespace Genshi.Props.C11
 open Genshi.Incl
@@ -149,50 +168,36 @@ theorem inline_seq_eq_runtime_partial (T : List Name) (files : Files) (hH : inH 
 
 /-- replaying any list of loads keeps the cache a cache of prepared forms -/
 theorem replayLoads_inv {T : List Name} {files : Files} (hH : inH T files = true) :
-    ∀ (ls : List Load) (c : Cache), CacheInv T files c → CacheInv T files (replayLoads files c ls)
-  | [], c, hc => hc
-  | l :: ls, c, hc => by
-    have hl := loadOK_of_inH hH l.1 l.2 c hc
-    simp only [replayLoads]
-    cases hraw : loadRaw files l.1 l.2 with
-    | fuel => simp [hraw] at hl
-    | err e =>
-      simp only [hraw] at hl
-      rw [hl]
-      exact replayLoads_inv hH ls c hc
-    | ok body =>
-      simp only [hraw] at hl
-      obtain ⟨body', c', hli, _, hc'⟩ := hl
-      rw [hli]
-      exact replayLoads_inv hH ls c' hc'
+    ∀ (ls : List Load) (c : Cache), CacheInv T files c → CacheInv T files (replayLoads files c ls) :=
+  replayLoads_invW (inHW_of_inH hH)
 
-/-- **the loader after a failed render.**  Whatever the render did before it raised (an undefined name, a
-missing include without fallback, the recursion limit): the templates it loaded and prepared on the way
-stay in the loader, and every one of them is a prepared form of its file — the invariant under which
+/-- **the loader after a failed render or a failed preparation.**  Whatever the request did before it raised
+(an undefined name, a missing include without fallback, the recursion limit, and — for file sets that
+contain ill-formed templates, `inHW` — a syntax error met while a template was being prepared, at load time
+or inside a run-time include): the templates it loaded and prepared on the way stay in the loader
+(`cacheAfterFail`: `loadInlC` / `pcT` for a preparation that failed part-way, `replayLoads` of the logged
+loads otherwise), and every one of them is a prepared form of its file — the invariant under which
 `renderOn_eq` answers the next request like run-time mode -/
-theorem failed_render_keeps_cache_sound {T : List Name} {files : Files} (hH : inH T files = true) (fuel : Nat)
+theorem failed_render_keeps_cache_sound {T : List Name} {files : Files} (hH : inHW T files = true) (fuel : Nat)
     (c : Cache) (hc : CacheInv T files c) (q : Req) :
     CacheInv T files (cacheAfterFail .inlineM files fuel c q) := by
   obtain ⟨entry, kind, data⟩ := q
-  have hl := loadOK_of_inH hH entry kind c hc
+  have hl := loadInl_cache_inv hH entry kind c hc
   simp only [cacheAfterFail, loadT]
-  cases hraw : loadRaw files entry kind with
-  | fuel => simp [hraw] at hl
-  | err e =>
-    simp only [hraw] at hl
-    simp [hl, hc]
-  | ok body =>
-    simp only [hraw] at hl
-    obtain ⟨body', c', hli, _, hc'⟩ := hl
-    simp only [hli, Res.map_ok]
-    exact replayLoads_inv hH _ c' hc'
+  cases hx : loadInl files entry kind c with
+  | fuel => rw [hx] at hl; simpa using hl
+  | err e => rw [hx] at hl; simpa using hl
+  | ok r =>
+    rw [hx] at hl
+    simp only [Res.map_ok]
+    exact replayLoads_invW hH _ r.2 hl
 
 theorem renderOnF_eq {T : List Name} {files : Files} (hH : inH T files = true) (fuel : Nat)
     (c : Cache) (hc : CacheInv T files c) (q : Req) :
     (renderOnF .inlineM files fuel c q).1 = (renderOn .runtime files fuel [] q).1 ∧
     CacheInv T files (renderOnF .inlineM files fuel c q).2 := by
   have h := renderOn_eq hH fuel c hc q
-  have hf := failed_render_keeps_cache_sound hH fuel c hc q
+  have hf := failed_render_keeps_cache_sound (inHW_of_inH hH) fuel c hc q
   unfold renderOnF
   cases hx : (renderOn .inlineM files fuel c q).1 with
   | ok evs => exact ⟨by rw [← h.1, hx], h.2⟩
@@ -235,6 +240,142 @@ theorem inline_seq_after_failure_partial (T : List Name) (files : Files) (hH : i
       rw [h.1, ih _ h.2, hrt]
   exact key qs [] (by intro n b h; simp at h)
 
+/-! ## file sets that contain ill-formed templates
+
+`inH` asks for every file to be a well-formed template: with `auto_reload` off a statically named target is
+loaded — and parsed — while the includer is prepared, so a syntax error surfaces although the include may
+never be reached (finding C11-eager-syntax).  Without that clause (`inHW`) the two modes still differ in
+nothing else: inline mode answers like run-time mode **or raises the syntax error**; and the loader keeps,
+after a preparation that failed part-way, the templates prepared inside it (`pcT`), which answer later
+requests as before. -/
+
+theorem renderOn_eqW {T : List Name} {files : Files} (hH : inHW T files = true) (fuel : Nat)
+    (c : Cache) (hc : CacheInv T files c) (q : Req) :
+    ((renderOn .inlineM files fuel c q).1 = .err .syntaxErr ∨
+      (renderOn .inlineM files fuel c q).1 = (renderOn .runtime files fuel [] q).1) ∧
+    CacheInv T files (renderOn .inlineM files fuel c q).2 := by
+  obtain ⟨entry, kind, data⟩ := q
+  have hl := loadOKW_of_inHW hH entry kind c hc
+  simp only [renderOn, loadT]
+  cases hraw : loadRaw files entry kind with
+  | fuel => simp [hraw] at hl
+  | err e =>
+    simp only [hraw] at hl
+    simp [hl.1, hc]
+  | ok body =>
+    simp only [hraw] at hl
+    cases hli : loadInl files entry kind c with
+    | fuel => rw [hli] at hl; exact hl.elim
+    | err e =>
+      rw [hli] at hl
+      obtain ⟨he, _⟩ := hl
+      subst he
+      simp [hc]
+    | ok rr =>
+      rw [hli] at hl
+      obtain ⟨hp, hc'⟩ := hl
+      simp only [Res.map_ok, Res.bind_ok]
+      have h0 : StRel T files { St.init data with cache := [] } { St.init data with cache := rr.2 } :=
+        ⟨rfl, rfl, .nil, .nil, hc', rfl⟩
+      have := simLW (loadOKW_of_inHW hH) (textOK_of_inHW hH) (simW hH fuel) hp (.ofKind kind) (.ofKind kind) _ _
+        (Coup.ofKind (loadRaw_text (textOK_of_inHW hH) hraw) (fun hk => by subst hk; exact .inl rfl)) h0
+      rcases this with hs | hr
+      · rw [hs]; simp [hc]
+      · revert hr
+        cases renderL .runtime files (render .runtime files fuel) (Rng.ofKind kind) body { St.init data with cache := [] } <;>
+          cases renderL .inlineM files (render .inlineM files fuel) (Rng.ofKind kind) rr.1 { St.init data with cache := rr.2 } <;>
+          simp [RRel, hc]
+        · intro h; exact .inr h.symm
+        · intro h hs; exact ⟨h.symm, hs.cache⟩
+
+/-
+  Full statement (false: `eager_syntax_witness`): for every file set — ill-formed templates included —
+      renderInline files entry kind data fuel = renderRuntime files entry kind data fuel.
+  Proved under `inHW` (= `inH` without "every file is well-formed"): the two modes agree, or inline mode
+  raises the syntax error (eagerly, while preparing).
+-/
+/-- **ill-formed templates in the file set**: the only thing inline mode does differently is to raise the
+syntax error of a statically named target early -/
+theorem inline_eq_runtime_illformed_partial (T : List Name) (files : Files) (hH : inHW T files = true)
+    (entry : Name) (kind : Kind) (data : List (Name × Value)) (fuel : Nat) :
+    renderInline files entry kind data fuel = .err .syntaxErr ∨
+    renderInline files entry kind data fuel = renderRuntime files entry kind data fuel := by
+  have hc0 : CacheInv T files [] := by intro n b h; simp at h
+  have h := (renderOn_eqW hH fuel [] hc0 (entry, kind, data)).1
+  have e1 : ∀ m, (renderOn m files fuel [] (entry, kind, data)).1 =
+      (loadT m files entry kind (St.init data)).bind fun r =>
+        (renderL m files (render m files fuel) (.ofKind kind) r.1 r.2).map (·.1) := by
+    intro m
+    have hinit : ({ St.init data with cache := [] } : St) = St.init data := rfl
+    simp only [renderOn, hinit]
+    cases loadT m files entry kind (St.init data) with
+    | fuel => rfl
+    | err e => rfl
+    | ok r =>
+      simp only [Res.bind_ok]
+      cases renderL m files (render m files fuel) (Rng.ofKind kind) r.1 r.2 <;> rfl
+  rw [e1, e1] at h
+  exact h
+
+theorem renderOnF_fst (m : Mode) (files : Files) (fuel : Nat) (c : Cache) (q : Req) :
+    (renderOnF m files fuel c q).1 = (renderOn m files fuel c q).1 := by
+  unfold renderOnF
+  cases hx : (renderOn m files fuel c q).1 <;> rfl
+
+theorem renderOnF_eqW {T : List Name} {files : Files} (hH : inHW T files = true) (fuel : Nat)
+    (c : Cache) (hc : CacheInv T files c) (q : Req) :
+    ((renderOnF .inlineM files fuel c q).1 = .err .syntaxErr ∨
+      (renderOnF .inlineM files fuel c q).1 = (renderOn .runtime files fuel [] q).1) ∧
+    CacheInv T files (renderOnF .inlineM files fuel c q).2 := by
+  have h := renderOn_eqW hH fuel c hc q
+  have hf := failed_render_keeps_cache_sound hH fuel c hc q
+  refine ⟨by rw [renderOnF_fst]; exact h.1, ?_⟩
+  unfold renderOnF
+  cases hx : (renderOn .inlineM files fuel c q).1 with
+  | ok evs => exact h.2
+  | err e => exact hf
+  | fuel => exact hf
+
+/-- run-time mode keeps no prepared templates -/
+theorem renderOn_runtime_cache (files : Files) (fuel : Nat) (q : Req) : (renderOn .runtime files fuel [] q).2 = [] := by
+  obtain ⟨entry, kind, data⟩ := q
+  simp only [renderOn, loadT]
+  cases hraw : loadRaw files entry kind with
+  | fuel => rfl
+  | err e => rfl
+  | ok body =>
+    simp only [Res.map_ok, Res.bind_ok]
+    have := render_keeps_cache_runtime files fuel (.ofKind kind) body { St.init data with cache := [] }
+    cases hx : renderL .runtime files (render .runtime files fuel) (Rng.ofKind kind) body { St.init data with cache := [] } with
+    | fuel => rfl
+    | err e => rfl
+    | ok r => simp only; rw [hx] at this; exact this
+
+/-
+  Full statement (false, same witness): … answers every request like run-time mode.
+-/
+/-- any number of requests through one loader over a file set that may contain ill-formed templates, the loader
+keeping after every failure — a failed render, **a preparation that failed part-way** — what it had loaded and
+prepared up to there (`renderSeqF`): position by position inline mode answers like run-time mode or raises the
+syntax error -/
+theorem inline_seq_illformed_partial (T : List Name) (files : Files) (hH : inHW T files = true)
+    (fuel : Nat) (qs : List Req) :
+    All2 (fun a b => a = .err .syntaxErr ∨ a = b)
+      ((renderSeqF .inlineM files fuel [] qs).map (·.1)) (renderSeq .runtime files fuel [] qs) := by
+  have key : ∀ (qs : List Req) (c : Cache), CacheInv T files c →
+      All2 (fun a b => a = .err .syntaxErr ∨ a = b)
+        ((renderSeqF .inlineM files fuel c qs).map (·.1)) (renderSeq .runtime files fuel [] qs) := by
+    intro qs
+    induction qs with
+    | nil => intro c _; exact .nil
+    | cons q qs ih =>
+      intro c hc
+      have h := renderOnF_eqW hH fuel c hc q
+      simp only [renderSeqF, renderSeq, List.map_cons]
+      rw [renderOn_runtime_cache]
+      exact .cons h.1 (ih _ h.2)
+  exact key qs [] (by intro n b h; simp at h)
+
 /-
   Full statement (false, `spec_restart_witness`): for every file set, entry, data and fuel
       renderRuntime files entry kind data fuel = renderSpec files entry kind data fuel
@@ -266,6 +407,45 @@ theorem inline_eq_spec_partial (T : List Name) (files : Files) (hH : inH T files
     (entry : Name) (kind : Kind) (data : List (Name × Value)) (fuel : Nat) :
     renderInline files entry kind data fuel = renderSpec files entry kind data fuel := by
   rw [inline_eq_runtime_partial T files hH, runtime_eq_spec_partial files hF]
+
+/-
+  Full statement (false, `spec_restart_witness`): renderRuntime = renderSpec for every file set.
+  Proved for file sets WITH match templates under `inHS T files`: every match template is written for a tag in
+  `T`; inside an element with a tag in `T` and inside a match template body (a zone) no macro call, and an
+  include only of content that does not depend on the window of match templates — statically named: the target
+  (or the fallback of a missing one) has no element with a tag in `T`, no macro call, no `select`, and includes
+  only text templates (`winfreeSL`); expression-valued: a text template, with such a fallback —; text templates
+  are textual.  No demand on well-formedness or on the class named by an include (both evaluators load the same
+  raw file).  Missing for the full statement: exactly these clauses (the run-time include restarts the match
+  filter, the replacement in place does not).
+-/
+/-- **an include stands for its target, with match templates around**: the layout pattern (a match template
+wrapping `select()` around an element whose content includes leaf fragments and text templates), macros and
+match templates defined inside included files, includes — also expression-valued ones — anywhere outside zones -/
+theorem runtime_eq_spec_zones_partial (T : List Name) (files : Files) (hS : inHS T files = true)
+    (entry : Name) (kind : Kind) (data : List (Name × Value)) (fuel : Nat) :
+    renderRuntime files entry kind data fuel = renderSpec files entry kind data fuel := by
+  simp only [renderRuntime, renderSpec, loadT]
+  cases hraw : loadRaw files entry kind with
+  | fuel => rfl
+  | err e => rfl
+  | ok body =>
+    simp only [Res.map_ok, Res.bind_ok]
+    have hok := find_fileOkS hS (loadRaw_ok_find hraw)
+    simp only [fileOkS, Bool.and_eq_true] at hok
+    have h0 : OkStZ T files (St.init data) := ⟨by intro p hp; simp [St.init] at hp, by intro p hp; simp [St.init] at hp⟩
+    have hc : CoupS false (.ofKind kind) (.ofKind kind) (winfreeSL T body) := by
+      cases kind with
+      | markup => exact CoupS.full
+      | text => exact .inr (winfreeSL_of_textual T body hok.2)
+    have := zspecL hS (zspec hS fuel) body false (.ofKind kind) (.ofKind kind) (St.init data) hok.1.1 hok.1.2 hc h0
+    rw [this.1]
+
+/-- … and so does the inline mode, inside both hypotheses -/
+theorem inline_eq_spec_zones_partial (T : List Name) (files : Files) (hH : inH T files = true) (hS : inHS T files = true)
+    (entry : Name) (kind : Kind) (data : List (Name × Value)) (fuel : Nat) :
+    renderInline files entry kind data fuel = renderSpec files entry kind data fuel := by
+  rw [inline_eq_runtime_partial T files hH, runtime_eq_spec_zones_partial T files hS]
 
 /-- recursive and mutually recursive includes terminate under the same conditions in both modes:
 one mode runs out of any amount of fuel iff the other does, and one mode reaches a result with
@@ -398,6 +578,267 @@ theorem marker_free_same_results (files : Files) (entry : Name) (kind : Kind) (d
         rw [render_succ] at this
         rw [this, ← mapE_map_fst, hm]; exact h
 
+/-! ## sequences of requests in the code's own inline mode (no markers) -/
+
+/-- the loader after a failed request, marker-free mode (the cache holds the same prepared streams in both
+inline modes; the markers are erased when a stream is taken out) -/
+theorem failed_render_keeps_cache_soundU {T : List Name} {files : Files} (hH : inHW T files = true) (fuel : Nat)
+    (c : Cache) (hc : CacheInv T files c) (q : Req) :
+    CacheInv T files (cacheAfterFail .inlineU files fuel c q) := by
+  obtain ⟨entry, kind, data⟩ := q
+  have hl := loadInl_cache_inv hH entry kind c hc
+  simp only [cacheAfterFail, loadT]
+  cases hx : loadInl files entry kind c with
+  | fuel => rw [hx] at hl; simpa using hl
+  | err e => rw [hx] at hl; simpa using hl
+  | ok r =>
+    rw [hx] at hl
+    simp only [Res.map_ok]
+    exact replayLoads_invW hH _ r.2 hl
+
+/-- what the preparation left in the loader when a load raised (full: every file set in `inHW`), and its
+agreement with the load where the load returns (every file set) -/
+theorem failed_prepare_keeps_cache_sound {T : List Name} {files : Files} (hH : inHW T files = true)
+    (name : Name) (cls : Kind) (c : Cache) (hc : CacheInv T files c) :
+    CacheInv T files (loadInlC files name cls c) ∧
+    (∀ r, loadInl files name cls c = .ok r → loadInlC files name cls c = r.2) := by
+  refine ⟨?_, loadInlC_agree files name cls c⟩
+  have h := loadInl_cache_inv hH name cls c hc
+  cases hx : loadInl files name cls c with
+  | fuel => rw [hx] at h; exact h
+  | err e => rw [hx] at h; exact h
+  | ok r => rw [hx] at h; rw [loadInlC_agree files name cls c r hx]; exact h
+
+theorem renderOnF_eqU {T : List Name} {files : Files} (hH : inH T files = true) (fuel : Nat)
+    (c : Cache) (hc : CacheInv T files c) (q : Req) (hno : (renderOn .runtime files fuel [] q).1 ≠ .fuel) :
+    (renderOnF .inlineU files fuel c q).1 = (renderOn .runtime files fuel [] q).1 ∧
+    CacheInv T files (renderOnF .inlineU files fuel c q).2 := by
+  have h := renderOn_eq hH fuel c hc q
+  have hu := renderOn_U_of_M files fuel c q (by rw [h.1]; exact hno)
+  have hf := failed_render_keeps_cache_soundU (inHW_of_inH hH) fuel c hc q
+  refine ⟨by rw [renderOnF_fst, hu, h.1], ?_⟩
+  unfold renderOnF
+  cases hx : (renderOn .inlineU files fuel c q).1 with
+  | ok evs => simp only; rw [hu]; exact h.2
+  | err e => exact hf
+  | fuel => exact hf
+
+/-
+  Full statement (false, see the witnesses): for every file set …  Proved under `inH`.
+-/
+/-- **sequences in the code's own inline mode.**  Any number of requests through one loader, failed ones
+included, prepared streams without cost markers (`Mode.inlineU`, what `gdrv` runs against the real loader):
+whenever run-time mode answers the whole sequence within the fuel, inline mode gives the same answers with the
+same fuel (it needs less stack: inlined templates are entered for free) -/
+theorem inline_real_seq_eq_runtime_partial (T : List Name) (files : Files) (hH : inH T files = true)
+    (fuel : Nat) (qs : List Req) (hno : ∀ r ∈ renderSeq .runtime files fuel [] qs, r ≠ .fuel) :
+    (renderSeqF .inlineU files fuel [] qs).map (·.1) = renderSeq .runtime files fuel [] qs := by
+  have key : ∀ (qs : List Req) (c : Cache), CacheInv T files c →
+      (∀ r ∈ renderSeq .runtime files fuel [] qs, r ≠ .fuel) →
+      (renderSeqF .inlineU files fuel c qs).map (·.1) = renderSeq .runtime files fuel [] qs := by
+    intro qs
+    induction qs with
+    | nil => intro c _ _; rfl
+    | cons q qs ih =>
+      intro c hc hno
+      simp only [renderSeq, List.mem_cons, forall_eq_or_imp] at hno
+      rw [renderOn_runtime_cache] at hno
+      have h := renderOnF_eqU hH fuel c hc q hno.1
+      simp only [renderSeqF, renderSeq, List.map_cons]
+      rw [h.1, ih _ h.2 hno.2, renderOn_runtime_cache]
+  exact key qs [] (by intro n b h; simp at h) hno
+
+theorem renderOnF_eqUW {T : List Name} {files : Files} (hH : inHW T files = true) (fuel : Nat)
+    (c : Cache) (hc : CacheInv T files c) (q : Req) (hno : (renderOn .runtime files fuel [] q).1 ≠ .fuel) :
+    ((renderOnF .inlineU files fuel c q).1 = .err .syntaxErr ∨
+      (renderOnF .inlineU files fuel c q).1 = (renderOn .runtime files fuel [] q).1) ∧
+    CacheInv T files (renderOnF .inlineU files fuel c q).2 := by
+  have h := renderOn_eqW hH fuel c hc q
+  have hne : (renderOn .inlineM files fuel c q).1 ≠ .fuel := by
+    rcases h.1 with h1 | h1
+    · rw [h1]; simp
+    · rw [h1]; exact hno
+  have hu := renderOn_U_of_M files fuel c q hne
+  have hf := failed_render_keeps_cache_soundU hH fuel c hc q
+  refine ⟨by rw [renderOnF_fst, hu]; exact h.1, ?_⟩
+  unfold renderOnF
+  cases hx : (renderOn .inlineU files fuel c q).1 with
+  | ok evs => simp only; rw [hu]; exact h.2
+  | err e => exact hf
+  | fuel => exact hf
+
+/-- sequences in the code's own inline mode over file sets that may contain ill-formed templates — what `gdrv`
+runs against the real loader in the `ill` shards: whenever run-time mode answers the whole sequence within the
+fuel, the marker-free inline mode with the same fuel answers every request like run-time mode or raises the
+syntax error, the loader keeping what failed renders and failed preparations left -/
+theorem inline_real_seq_illformed_partial (T : List Name) (files : Files) (hH : inHW T files = true)
+    (fuel : Nat) (qs : List Req) (hno : ∀ r ∈ renderSeq .runtime files fuel [] qs, r ≠ .fuel) :
+    All2 (fun a b => a = .err .syntaxErr ∨ a = b)
+      ((renderSeqF .inlineU files fuel [] qs).map (·.1)) (renderSeq .runtime files fuel [] qs) := by
+  have key : ∀ (qs : List Req) (c : Cache), CacheInv T files c →
+      (∀ r ∈ renderSeq .runtime files fuel [] qs, r ≠ .fuel) →
+      All2 (fun a b => a = .err .syntaxErr ∨ a = b)
+        ((renderSeqF .inlineU files fuel c qs).map (·.1)) (renderSeq .runtime files fuel [] qs) := by
+    intro qs
+    induction qs with
+    | nil => intro c _ _; exact .nil
+    | cons q qs ih =>
+      intro c hc hno
+      simp only [renderSeq, List.mem_cons, forall_eq_or_imp] at hno
+      rw [renderOn_runtime_cache] at hno
+      have h := renderOnF_eqUW hH fuel c hc q hno.1
+      simp only [renderSeqF, renderSeq, List.map_cons]
+      rw [renderOn_runtime_cache]
+      exact .cons h.1 (ih _ h.2 hno.2)
+  exact key qs [] (by intro n b h; simp at h) hno
+
+/-- **fuel is only a bound, for sequences and for the loader's state** (every file set, every mode): if no
+request of the sequence runs out of fuel `f`, then with any larger fuel every answer *and the loader's prepared
+templates after every request* — failed requests included: the loads a failed render had performed are the same
+(`logN_eq/logL_eq/logR_eq`) — are the same.  So the depth at which the limit sits can influence a sequence only
+through a request that actually hits it (where the harness applies its saturation test) -/
+theorem seq_more_fuel_same_answers_and_loader (m : Mode) (files : Files) {f g : Nat} (hfg : f ≤ g) (qs : List Req)
+    (hno : ∀ x ∈ renderSeqF m files f [] qs, x.1 ≠ .fuel) :
+    renderSeqF m files g [] qs = renderSeqF m files f [] qs := by
+  have key : ∀ (qs : List Req) (c : Cache), (∀ x ∈ renderSeqF m files f c qs, x.1 ≠ .fuel) →
+      renderSeqF m files g c qs = renderSeqF m files f c qs := by
+    intro qs
+    induction qs with
+    | nil => intro c _; rfl
+    | cons q qs ih =>
+      intro c hno
+      simp only [renderSeqF, List.mem_cons, forall_eq_or_imp] at hno
+      have h1 := renderOnF_fuel_indep m files hfg c q (by rw [← renderOnF_fst]; exact hno.1)
+      simp only [renderSeqF]
+      rw [h1, ih _ hno.2]
+  exact key qs [] hno
+
+/-- **a request that hits the limit** (every file set, every mode): with more fuel it performs the same loads and
+possibly further ones (`logN_pre/logL_pre/logR_pre`: the log at fuel `f` is a prefix of the log at `g ≥ f`), so
+the loader's state after the failed request at the larger fuel is the state at the smaller fuel with further
+loads replayed on top -/
+theorem failed_request_more_fuel_further_loads (m : Mode) (files : Files) {f g : Nat} (hfg : f ≤ g) (c : Cache) (q : Req) :
+    ∃ t, cacheAfterFail m files g c q = replayLoads files (cacheAfterFail m files f c q) t := by
+  cases m with
+  | runtime => exact ⟨[], rfl⟩
+  | inlineM =>
+    simp only [cacheAfterFail]
+    cases hl : loadT .inlineM files q.1 q.2.1 { St.init q.2.2 with cache := c } with
+    | fuel => exact ⟨[], rfl⟩
+    | err e => exact ⟨[], rfl⟩
+    | ok p =>
+      obtain ⟨body, st1⟩ := p
+      simp only
+      obtain ⟨t, ht⟩ := logL_pre .inlineM files (render_le .inlineM files hfg) (logR_eq .inlineM files hfg)
+        (logR_pre .inlineM files hfg) body (.ofKind q.2.1) st1
+      exact ⟨t, by rw [ht, replayLoads_append]⟩
+  | inlineU =>
+    simp only [cacheAfterFail]
+    cases hl : loadT .inlineU files q.1 q.2.1 { St.init q.2.2 with cache := c } with
+    | fuel => exact ⟨[], rfl⟩
+    | err e => exact ⟨[], rfl⟩
+    | ok p =>
+      obtain ⟨body, st1⟩ := p
+      simp only
+      obtain ⟨t, ht⟩ := logL_pre .inlineU files (render_le .inlineU files hfg) (logR_eq .inlineU files hfg)
+        (logR_pre .inlineU files hfg) body (.ofKind q.2.1) st1
+      exact ⟨t, by rw [ht, replayLoads_append]⟩
+
+/-- **the set of prepared templates a failed request leaves grows with the fuel** (every file set, every mode):
+the loader loses nothing by a failed request (`Sub c …`: preparations, loads and replayed loads only add to the
+cache, `Lemmas/InclGrow.lean`), and what it holds after the request at fuel `f` it also holds after the request
+at any `g ≥ f`.  The names are among the finitely many files of the set, so the sequence of these sets is
+eventually constant: that constant is what the harness's saturation test (fuel 24 against 72) looks for -/
+theorem loaded_set_grows_with_fuel (m : Mode) (files : Files) {f g : Nat} (hfg : f ≤ g) (c : Cache) (q : Req) :
+    Sub c (cacheAfterFail m files f c q) ∧ Sub (cacheAfterFail m files f c q) (cacheAfterFail m files g c q) := by
+  constructor
+  · cases m with
+    | runtime => exact Sub.refl _
+    | inlineM =>
+      simp only [cacheAfterFail, loadT]
+      cases hx : loadInl files q.1 q.2.1 c with
+      | fuel => exact loadInlC_grows files _ _ c
+      | err e => exact loadInlC_grows files _ _ c
+      | ok r => exact (loadInl_grows files _ _ c r hx).trans (replayLoads_grows files _ _)
+    | inlineU =>
+      simp only [cacheAfterFail, loadT]
+      cases hx : loadInl files q.1 q.2.1 c with
+      | fuel => exact loadInlC_grows files _ _ c
+      | err e => exact loadInlC_grows files _ _ c
+      | ok r => exact (loadInl_grows files _ _ c r hx).trans (replayLoads_grows files _ _)
+  · obtain ⟨t, ht⟩ := failed_request_more_fuel_further_loads m files hfg c q
+    rw [ht]
+    exact replayLoads_grows files t _
+
+theorem cacheAfterFail_in (m : Mode) (files : Files) (fuel : Nat) (c : Cache) (q : Req) (hc : In files c) :
+    In files (cacheAfterFail m files fuel c q) := by
+  cases m with
+  | runtime => exact hc
+  | inlineM =>
+    simp only [cacheAfterFail, loadT]
+    cases hx : loadInl files q.1 q.2.1 c with
+    | fuel => exact loadInlC_in files _ _ c hc
+    | err e => exact loadInlC_in files _ _ c hc
+    | ok r => exact replayLoads_in files _ _ (loadInl_in files _ _ c r hc hx)
+  | inlineU =>
+    simp only [cacheAfterFail, loadT]
+    cases hx : loadInl files q.1 q.2.1 c with
+    | fuel => exact loadInlC_in files _ _ c hc
+    | err e => exact loadInlC_in files _ _ c hc
+    | ok r => exact replayLoads_in files _ _ (loadInl_in files _ _ c r hc hx)
+
+/-- **saturation exists** (every file set, every mode): the prepared templates are files of the set
+(`Lemmas/InclFin.lean`: `In`), the set a failed request leaves grows with the fuel, so from some fuel `f0` on it is
+the same set of templates for every fuel — the state the real loader (whose limit lies far beyond the model's
+24) is compared with when the harness's test finds fuel 24 and 72 to agree.  Not proved: a bound on `f0` -/
+theorem loaded_set_eventually_constant (m : Mode) (files : Files) (c : Cache) (q : Req) (hc : In files c) :
+    ∃ f0, ∀ g, f0 ≤ g →
+      Sub (cacheAfterFail m files g c q) (cacheAfterFail m files f0 c q) ∧
+      Sub (cacheAfterFail m files f0 c q) (cacheAfterFail m files g c q) := by
+  obtain ⟨f0, h⟩ := growing_caches_const files (fun f => cacheAfterFail m files f c q)
+    (fun f => cacheAfterFail_in m files f c q hc)
+    (fun f g hfg => (loaded_set_grows_with_fuel m files hfg c q).2)
+  exact ⟨f0, fun g hg => ⟨h g hg, (loaded_set_grows_with_fuel m files hg c q).2⟩⟩
+
+/-- **the same conditions of termination, for sequences**: a list of answers none of which is "out of fuel" is
+what the code's inline mode gives for the sequence with some fuel iff it is what run-time mode gives with some
+fuel (recursive and mutually recursive includes, failed requests in the sequence, the loader's state carried
+along) -/
+theorem seq_same_termination (T : List Name) (files : Files) (hH : inH T files = true)
+    (qs : List Req) (rs : List (Res (List Ev))) (hrs : ∀ r ∈ rs, r ≠ .fuel) :
+    (∃ f, (renderSeqF .inlineU files f [] qs).map (·.1) = rs) ↔ (∃ f, renderSeq .runtime files f [] qs = rs) := by
+  constructor
+  · rintro ⟨f, hf⟩
+    have key : ∀ (qs : List Req) (c : Cache), CacheInv T files c →
+        (∀ r ∈ (renderSeqF .inlineU files f c qs).map (·.1), r ≠ .fuel) →
+        ∃ g0, ∀ g, g0 ≤ g → renderSeq .runtime files g [] qs = (renderSeqF .inlineU files f c qs).map (·.1) := by
+      intro qs
+      induction qs with
+      | nil => intro c _ _; exact ⟨0, fun _ _ => rfl⟩
+      | cons q qs ih =>
+        intro c hc hno
+        simp only [renderSeqF, List.map_cons, List.mem_cons, forall_eq_or_imp] at hno
+        have hq : (renderOn .inlineU files f c q).1 ≠ .fuel := by rw [← renderOnF_fst]; exact hno.1
+        obtain ⟨g1, hg1⟩ := renderOn_M_of_U files f c q hq
+        -- the loader after this request is sound
+        have hc' : CacheInv T files (renderOnF .inlineU files f c q).2 := by
+          unfold renderOnF
+          cases hx : (renderOn .inlineU files f c q).1 with
+          | ok evs =>
+            simp only
+            rw [← hg1 g1 (Nat.le_refl _)]
+            exact (renderOn_eq hH g1 c hc q).2
+          | err e => exact failed_render_keeps_cache_soundU (inHW_of_inH hH) f c hc q
+          | fuel => exact failed_render_keeps_cache_soundU (inHW_of_inH hH) f c hc q
+        obtain ⟨g2, hg2⟩ := ih _ hc' hno.2
+        refine ⟨max g1 g2, fun g hg => ?_⟩
+        simp only [renderSeq, renderSeqF, List.map_cons]
+        rw [renderOn_runtime_cache, hg2 g (by omega), ← (renderOn_eq hH g c hc q).1, hg1 g (by omega), renderOnF_fst]
+    obtain ⟨g0, hg0⟩ := key qs [] (by intro n b h; simp at h) (by rw [hf]; exact hrs)
+    exact ⟨g0, by rw [hg0 g0 (Nat.le_refl _), hf]⟩
+  · rintro ⟨f, hf⟩
+    exact ⟨f, by rw [inline_real_seq_eq_runtime_partial T files hH f qs (by rw [hf]; exact hrs), hf]⟩
+
 /-
   The statement about the code as it is (no markers).  Full statement (false, same witnesses):
     ∀ files entry kind data r, r ≠ .fuel → ((∃ f, renderInlineReal … f = r) ↔ (∃ f, renderRuntime … f = r))
@@ -415,6 +856,29 @@ theorem inline_real_eq_runtime_partial (T : List Name) (files : Files) (hH : inH
     exact ⟨g, by rw [← inline_eq_runtime_partial T files hH]; exact hg⟩
   · exact hm.1 f (by rw [inline_eq_runtime_partial T files hH]; exact h)
   · exact hm.1 f (by rw [inline_eq_runtime_partial T files hH]; exact h)
+
+/-
+  The marker-free statement for file sets with ill-formed templates.  Full statement (false, `eager_syntax_witness`):
+  the code's inline mode and run-time mode reach the same results.
+-/
+/-- the code as it is (no markers), file sets that may contain ill-formed templates (`inHW`): a result the inline
+mode reaches is the syntax error or a result run-time mode reaches; a result run-time mode reaches with fuel `f` is
+reached by the inline mode with the same `f`, unless the inline mode raises the syntax error -/
+theorem inline_real_eq_runtime_illformed_partial (T : List Name) (files : Files) (hH : inHW T files = true)
+    (entry : Name) (kind : Kind) (data : List (Name × Value)) (r : Res (List Ev)) (hr : r ≠ .fuel) :
+    ((∃ f, renderInlineReal files entry kind data f = r) → r = .err .syntaxErr ∨ ∃ f, renderRuntime files entry kind data f = r) ∧
+    (∀ f, renderRuntime files entry kind data f = r →
+      renderInlineReal files entry kind data f = r ∨ renderInlineReal files entry kind data f = .err .syntaxErr) := by
+  constructor
+  · rintro ⟨f, h⟩
+    obtain ⟨g, hg⟩ := (marker_free_same_results files entry kind data r hr).2 f h
+    rcases inline_eq_runtime_illformed_partial T files hH entry kind data g with h1 | h1
+    · left; rw [← hg, h1]
+    · right; exact ⟨g, by rw [← h1]; exact hg⟩
+  · intro f h
+    rcases inline_eq_runtime_illformed_partial T files hH entry kind data f with h1 | h1
+    · right; exact (marker_free_same_results files entry kind data _ (by simp)).1 f h1
+    · left; exact (marker_free_same_results files entry kind data r hr).1 f (by rw [h1]; exact h)
 
 /-! ## what an include means (run-time semantics; by `inline_eq_runtime_partial` the inline mode
 produces the same events for whole templates) -/
@@ -614,6 +1078,82 @@ example : (renderSeqF .inlineM exFail 6 [] exFailReqs).map (fun x => (x.1, x.2.m
       [nB, ['c', '.', 'h', 't', 'm', 'l'], nA])] := by decide +kernel
 example : (renderOn .inlineM exFail 6 [] (nA, .markup, [(['h', '0'], .str nB)])).2 = [] := by decide +kernel
 
+/-- non-vacuity of `inline_real_seq_eq_runtime_partial` / `seq_same_termination`: the sequence with a failed
+request in the marker-free mode; no answer is "out of fuel" at fuel 6.  At fuel 2 run-time mode gives up on
+`exFiles` where the marker-free inline mode answers: the hypothesis `hno` is needed, and the two directions of
+`seq_same_termination` may need different fuel. -/
+example : (renderSeqF .inlineU exFail 6 [] exFailReqs).map (·.1) = renderSeq .runtime exFail 6 [] exFailReqs ∧
+    (renderSeq .runtime exFail 6 [] exFailReqs).all (· != .fuel) = true ∧
+    renderSeq .runtime exFiles 2 [] [(nA, .markup, exData)] = [.fuel] ∧
+    (renderSeqF .inlineU exFiles 2 [] [(nA, .markup, exData)]).map (·.1) = renderSeq .runtime exFiles 9 [] [(nA, .markup, exData)] := by
+  decide +kernel
+
+/-- non-vacuity of `seq_more_fuel_same_answers_and_loader`: the sequence with a failed render, fuel 6 and 9, the
+code's inline mode — answers and prepared templates after every request -/
+example : (renderSeqF .inlineU exFail 6 [] exFailReqs).all (fun x => x.1 != .fuel) = true ∧
+    (renderSeqF .inlineU exFail 9 [] exFailReqs).map (fun x => (x.1, x.2.map (·.1))) =
+      (renderSeqF .inlineU exFail 6 [] exFailReqs).map (fun x => (x.1, x.2.map (·.1))) := by decide +kernel
+
+def nC : Name := ['c', '.', 'h', 't', 'm', 'l']
+
+/-- `a.html` includes `${h0}` = `b.html`, which includes `${h1}` = `c.html`, which includes `${h2}` = `a.html`: an endless
+    descent through expression-valued includes -/
+def exDeep : Files :=
+  [[(nA, ⟨.markup, some [.elem ['d'] [.include (.dyn [.var ['h', '0']]) .markup false [] nA]]⟩),
+    (nB, ⟨.markup, some [.elem ['e'] [.include (.dyn [.var ['h', '1']]) .markup false [] nB]]⟩),
+    (nC, ⟨.markup, some [.elem ['p'] [.include (.dyn [.var ['h', '2']]) .markup false [] nC]]⟩)]]
+def exDeepData : List (Name × Value) := [(['h', '0'], .str nB), (['h', '1'], .str nC), (['h', '2'], .str nA)]
+
+/-- the hypothesis of `loaded_set_eventually_constant` holds for a fresh loader (and, by `cacheAfterFail_in`, stays) -/
+example : In exDeep [] := by intro n h; simp at h
+
+/-- non-vacuity of `failed_request_more_fuel_further_loads`, and what saturation means: the request runs out of
+every fuel; with fuel 0 the loader is left with 2 prepared templates, from fuel 1 on with all 3 -/
+example : (List.range 6).map (fun f => (renderOnF .inlineU exDeep f [] (nA, .markup, exDeepData)).1) = List.replicate 6 .fuel ∧
+    (List.range 6).map (fun f => ((renderOnF .inlineU exDeep f [] (nA, .markup, exDeepData)).2.map (·.1)).length) = [2, 3, 3, 3, 3, 3] := by
+  decide +kernel
+/-- `a.html` = `<d><xi:include href="${h0}"/></d>`, `b.html` = `<e>B</e>`,
+    `c.html` = `<e><xi:include href="b.html"/><py:if test="s0"><xi:include href="bad.html"/></py:if></e>`,
+    `bad.html` is not well-formed -/
+def exIll : Files :=
+  [[(nA, ⟨.markup, some [.elem ['d'] [.include (.dyn [.var ['h', '0']]) .markup false [] nA]]⟩),
+    (nB, ⟨.markup, some [.elem ['e'] [.text ['B']]]⟩),
+    (nC, ⟨.markup, some [.elem ['e'] [.include (.static nB) .markup false [] nC,
+                                        .cond (.var ['s', '0']) [.include (.static nBad) .markup false [] nC]]]⟩),
+    (nBad, ⟨.markup, none⟩)]]
+
+def exIllReqs : List Req :=
+  [(nA, .markup, [(['h', '0'], .str nC), (['s', '0'], .str [])]),   -- loads c.html at run time: its preparation fails after b.html
+   (nB, .markup, []),                                                -- served from what the failed preparation left
+   (nC, .markup, [(['s', '0'], .str [])])]
+
+/-- the witness of finding C11-eager-syntax is inside `inHW`: there `inline_real_eq_runtime_illformed_partial` speaks,
+and the syntax-error disjunct is the one that holds -/
+example : inHW (matchTags wEager) wEager = true ∧
+    renderInlineReal wEager nA .markup [(['s', '0'], .str [])] 5 = .err .syntaxErr ∧
+    renderInlineReal exIll nB .markup [] 5 = renderRuntime exIll nB .markup [] 5 := by decide +kernel
+/-- non-vacuity of `inline_eq_runtime_illformed_partial` / `inline_seq_illformed_partial`: outside `inH`, inside
+`inHW`; the first request raises the syntax error in inline mode only, when `c.html` is loaded by the
+expression-valued include and prepared: `b.html` was inlined into it — and stays prepared in the loader, beside
+the entry — before `bad.html` was met; `c.html` itself is not kept.  Run-time mode answers all three. -/
+example : inHW (matchTags exIll) exIll = true ∧ inH (matchTags exIll) exIll = false := by decide +kernel
+example : (renderSeqF .inlineM exIll 6 [] exIllReqs).map (fun x => (x.1, x.2.map (·.1))) =
+    [(.err .syntaxErr, [nB, nA]),
+     (.ok [.start ['e'], .text ['B'], .stop ['e']], [nB, nA]),
+     (.err .syntaxErr, [nB, nA])] := by decide +kernel
+example : (renderSeqF .inlineU exIll 6 [] exIllReqs).map (·.1) = (renderSeqF .inlineM exIll 6 [] exIllReqs).map (·.1) ∧
+    (renderSeq .runtime exIll 6 [] exIllReqs).all (· != .fuel) = true := by decide +kernel
+example : renderSeq .runtime exIll 6 [] exIllReqs =
+    [.ok [.start ['d'], .start ['e'], .start ['e'], .text ['B'], .stop ['e'], .stop ['e'], .stop ['d']],
+     .ok [.start ['e'], .text ['B'], .stop ['e']],
+     .ok [.start ['e'], .start ['e'], .text ['B'], .stop ['e'], .stop ['e']]] := by decide +kernel
+/-- the cache-after function agrees with the preparation where it succeeds, and differs from "drop everything"
+where it fails -/
+example : (loadInlC exIll nC .markup []).map (·.1) = [nB] ∧
+    (loadInl exIll nC .markup []).map (fun _ => ()) = .err .syntaxErr ∧
+    (loadInl exIll nA .markup []).map (fun r => r.2.map (·.1)) = .ok ((loadInlC exIll nA .markup []).map (·.1)) := by
+  decide +kernel
+
 /-- `a.html` = `<py:match path="x">[${select('*|text()')}]</py:match><py:match path="y">Y<y/></py:match>
     <x><xi:include href="${h0}"/></x>`, `b.html` = `<y/>`.  The include sits in the content of a matched element:
     that content is produced under the window `[0, 1)` and then spliced into the body of template 0, which is
@@ -636,6 +1176,46 @@ theorem spec_restart_witness :
     renderInline exRestart nA .markup [(['h', '0'], .str nB)] 6
       = renderRuntime exRestart nA .markup [(['h', '0'], .str nB)] 6 ∧
     inH (matchTags exRestart) exRestart = true := by decide +kernel
+
+/-- `a.html` as in `exRestart`, but `<x>` includes `leaf.html` = `<p><xi:include href="${h0}"/></p>` by name: a
+    window-independent fragment in the sense of `inH` (`winfreeL`: an expression-valued include restarts the window
+    in both loader modes) — not in the sense of `inHS` (`winfreeSL`): in place, `b.html`'s `<y/>` stays under the
+    restricted window of the matched element's content. -/
+def exLeafDyn : Files :=
+  [[(nA, ⟨.markup, some [.matchT ['x'] [.text ['['], .select, .text [']']],
+                          .matchT ['y'] [.text ['Y'], .elem ['y'] []],
+                          .elem ['x'] [.include (.static nLeaf) .markup false [] nA]]⟩),
+    (nLeaf, ⟨.markup, some [.elem ['p'] [.include (.dyn [.var ['h', '0']]) .markup false [] nLeaf]]⟩),
+    (nB, ⟨.markup, some [.elem ['y'] []]⟩)]]
+
+/-- why `inHS` asks more of window-independent content than `inH` does: inside `inH` (the loader modes agree),
+    outside `inHS`, and run-time mode differs from the specification -/
+theorem spec_leaf_dyn_witness :
+    inH (matchTags exLeafDyn) exLeafDyn = true ∧ inHS (matchTags exLeafDyn) exLeafDyn = false ∧
+    renderRuntime exLeafDyn nA .markup [(['h', '0'], .str nB)] 7
+      = .ok [.text ['['], .start ['p'], .text ['Y'], .text ['Y'], .start ['y'], .stop ['y'], .stop ['p'], .text [']']] ∧
+    renderInlineReal exLeafDyn nA .markup [(['h', '0'], .str nB)] 7
+      = renderRuntime exLeafDyn nA .markup [(['h', '0'], .str nB)] 7 ∧
+    renderSpec exLeafDyn nA .markup [(['h', '0'], .str nB)] 7
+      = .ok [.text ['['], .start ['p'], .text ['Y'], .start ['y'], .stop ['y'], .stop ['p'], .text [']']] := by
+  decide +kernel
+
+/-- the clause of `inHS` that admits an expression-valued include inside a zone is not vacuous: `<x>` (matched, its
+    content wrapped by the match template) includes `${h0}` = `t.txt` with `parse="text"`, and a missing text template
+    with a fallback -/
+def exZoneText : Files :=
+  [[(nA, ⟨.markup, some [.elem ['d'] [
+        .matchT ['x'] [.elem ['w'] [.select]],
+        .elem ['x'] [.include (.dyn [.var ['h', '0']]) .text false [] nA,
+                     .include (.dyn [.var ['h', '1']]) .text true [.text ['F']] nA]]]⟩),
+    (nT, ⟨.text, some [.text ['T'], .var ['s', '0']]⟩)]]
+
+example : inHS (matchTags exZoneText) exZoneText = true ∧ noMtFiles exZoneText = false ∧
+    renderRuntime exZoneText nA .markup ((['h', '0'], .str nT) :: (['h', '1'], .str ['n', '.', 't', 'x', 't']) :: exData) 5
+      = renderSpec exZoneText nA .markup ((['h', '0'], .str nT) :: (['h', '1'], .str ['n', '.', 't', 'x', 't']) :: exData) 5 ∧
+    renderSpec exZoneText nA .markup ((['h', '0'], .str nT) :: (['h', '1'], .str ['n', '.', 't', 'x', 't']) :: exData) 5
+      = .ok [.start ['d'], .start ['w'], .text ['T'], .text ['v'], .text ['F'], .stop ['w'], .stop ['d']] := by
+  decide +kernel
 
 /-- non-vacuity of `runtime_eq_spec_partial`: a file set without match templates (nested and recursive
     includes, a macro crossing the file boundary, fallback, text include, expression-valued href) -/
@@ -665,6 +1245,14 @@ def exLayout : Files :=
     (nLeaf, ⟨.markup, some [.elem ['p'] [.text ['L'], .var ['s', '0']]]⟩),
     (nT, ⟨.text, some [.text ['T']]⟩)]]
 
+/-- non-vacuity of `runtime_eq_spec_zones_partial`: file sets with match templates inside `inHS` — the layout
+pattern, and the set that exercises every construct (a match template and a macro crossing a file boundary, an
+expression-valued include outside zones); the witness set of `spec_restart_witness` is outside -/
+example : inHS (matchTags exLayout) exLayout = true ∧ inHS (matchTags exFiles) exFiles = true ∧
+    inHS (matchTags exRestart) exRestart = false ∧ noMtFiles exLayout = false ∧ noMtFiles exFiles = false := by decide +kernel
+example : renderSpec exLayout nA .markup exData 4 = renderRuntime exLayout nA .markup exData 4 ∧
+    renderSpec exFiles nA .markup exData 9 = renderRuntime exFiles nA .markup exData 9 ∧
+    (match renderSpec exFiles nA .markup exData 9 with | .ok evs => evs.length | _ => 0) = 20 := by decide +kernel
 example : inH (matchTags exLayout) exLayout = true := by decide +kernel
 example : renderInlineReal exLayout nA .markup exData 4 = renderRuntime exLayout nA .markup exData 4 ∧
     renderRuntime exLayout nA .markup exData 4 =
